@@ -175,7 +175,7 @@ class PedPhasePart(Base):
         reads = noisy_reads(case, G.render_specs(case, case["read_specs"]), case["noise"])
         ref = G.write_fasta(case["contigs"], os.path.join(d, "ref.fa"))
         vcf = G.write_vcf(case, os.path.join(d, "in.vcf"), gts=case["gts"])
-        ped = G.write_ped([["father", "mother", ch] for ch in case.get("ped_order", children)], os.path.join(d, "fam.ped"))
+        ped = G.write_ped([["father", "mother", ch] for ch in case.get("ped_order", children)], os.path.join(d, "fam.ped"), founders=case.get("ped_founders"))
         inputs = [G.write_bam(case, reads, os.path.join(d, "reads.bam"))] if reads else []
         args = ["phase", "-o", "{out}/out.vcf", "--reference", ref, "--ped", ped, "--recombination-list", "{out}/recomb.tsv",
                 "--output-read-list", "{out}/reads.tsv"] + (["--use-ped-samples"] if case["use_ped_samples"] else []) + [vcf] + inputs
